@@ -11,3 +11,9 @@ def plans(tier):
     sim = [dict(cfg="C", depth=14, maxtime=6, alpha=["cer", "cea", "sans", "send", "dpr", "ans"], num=400 if th else 80, maxconn=4, pairs=False),
            dict(cfg="DEF", depth=14, maxtime=6, alpha=["cer", "sans", "send", "dwr"], num=400 if th else 80, maxconn=4, pairs=False)]
     return mc, sim
+
+
+def enum_plans(tier):
+    th = tier == "thorough"
+    # one connection: requests sent with a short timeout; answers in time, late (after the timeout) and repeated
+    return [dict(cfg="A", depth=7 if th else 6, maxtime=3, alpha=["cerok", "send1", "sans"], faults=False, maxconn=1)]
